@@ -64,6 +64,8 @@ def cases(tier, seed):
         out.append({'k': 'lfsr', 'w': w})
     for w in XORO_W[tier]:
         out.append({'k': 'xoro', 'w': w, 'reqs': 2})
+        out.append({'k': 'xoro', 'w': w, 'reqs': 0, 'variant': 'reload_done'})
+        out.append({'k': 'xoro', 'w': w, 'reqs': 0, 'variant': 'reload_inflight'})
     for bpc in (1, 2, 4, 8, 16, 32, 64):
         out.append({'k': 'trivium_step', 'bpc': bpc, 'w': 64 if bpc > 1 else 8})
     for bpc in TRIV_BPC[tier]:
@@ -365,16 +367,35 @@ def build_xoro(w):
     return pyrtl.working_block()
 
 
-def xoro_schedule(w, reqs):
-    """documented protocol: load; then `reqs` times (req, wait gen_cycles cycles)"""
+def xoro_schedule(w, reqs, variant=None):
+    """documented protocol: load; then `reqs` times (req, wait gen_cycles cycles). Variants with a second load: after a number
+    has been delivered ('reload_done'), or one cycle after a req, while the generation is in flight ('reload_inflight').
+    returns (schedule of (load, req), cycles at which ready must be 1, gen_cycles, [(cycle, seed index the number comes from)])"""
     gen = int(math.ceil(w / 64))
     sched = [(1, 0)]
     ready_at = []
-    for _ in range(reqs):
+    numbers = []
+    if variant == 'reload_done':
+        sched += [(0, 1)] + [(0, 0)] * gen
+        ready_at.append(len(sched) - 1)
+        numbers.append((len(sched) - 1, 0, 0))
+        sched += [(1, 0), (0, 0), (0, 0)]
+        sched += [(0, 1)] + [(0, 0)] * gen
+        ready_at.append(len(sched) - 1)
+        numbers.append((len(sched) - 1, 1, 0))
+        return sched, ready_at, gen, numbers
+    if variant == 'reload_inflight':
+        sched += [(0, 1), (1, 0), (0, 0), (0, 0), (0, 0)]
+        sched += [(0, 1)] + [(0, 0)] * gen
+        ready_at.append(len(sched) - 1)
+        numbers.append((len(sched) - 1, 1, 0))
+        return sched, ready_at, gen, numbers
+    for i in range(reqs):
         sched.append((0, 1))
         sched += [(0, 0)] * gen
         ready_at.append(len(sched) - 1)
-    return sched, ready_at, gen
+        numbers.append((len(sched) - 1, 0, i))
+    return sched, ready_at, gen, numbers
 
 
 def do_xoro(case, ob, site):
@@ -385,12 +406,13 @@ def do_xoro(case, ob, site):
         block = build_xoro(w)
     (args, kw, res) = rec.calls[0]
     an, bn, rn = args[0].name, args[1].name, res.name
-    sched, ready_at, gen = xoro_schedule(w, case['reqs'])
+    sched, ready_at, gen, numbers = xoro_schedule(w, case['reqs'], case.get('variant'))
     v = Vars()
-    seed = v.inp('seed', 0, 128)
+    loads = [t for t, (ld, rq) in enumerate(sched) if ld]
+    seeds = [v.inp('seed', t, 128) for t in loads]
 
     def ins(t):
-        return {'load': sched[t][0], 'req': sched[t][1], 'seed': SymInt.mk(seed, False) if t == 0 else 0}
+        return {'load': sched[t][0], 'req': sched[t][1], 'seed': SymInt.mk(seeds[loads.index(t)], False) if t in loads else 0}
     with sym_env([block]):
         rs = run_sim(block, len(sched), v, reg_init='sym', mem_init='default', track='all', inputs_override=ins)
     r = simdrv.single_path(rs)
@@ -404,13 +426,15 @@ def do_xoro(case, ob, site):
         a, b = sym._ext(ar.t, ar.s, 65), sym._ext(br.t, br.s, 65)
         cuts.cut(ob, 'kogge_stone@%d' % t, sym._lift(T).t, z3.Extract(sym._lift(T).n - 1, 0, a + b), r.pc, v, site,
                  generalize=[ar.t, br.t])
-    s0, s1 = z3.Extract(63, 0, seed), z3.Extract(127, 64, seed)
     goals = []
     for t in range(len(sched)):
         rdy = to_bv(r.trace['ready'][t], 1)
         if t >= 1:   # before the load has taken effect the (arbitrary) pre-load state decides ready
             goals.append(('xoro:ready@%d' % t, cuts.rewrite(rdy == (1 if t in ready_at else 0)), site + ':ready'))
-    for t in ready_at:
+    for t, si, skip in numbers:
+        s0, s1 = z3.Extract(63, 0, seeds[si]), z3.Extract(127, 64, seeds[si])
+        for _ in range(skip * gen):     # numbers delivered earlier from the same seed
+            _wd, s0, s1 = refs.xoroshiro_next(s0, s1)
         words = []
         for _ in range(gen):
             wd, s0, s1 = refs.xoroshiro_next(s0, s1)
@@ -668,31 +692,39 @@ def replay(cex):
         return bool(bad), '\n'.join(bad)
     if k in ('xoro', 'trivium'):
         w = c['w']
+        numbers = []
         if k == 'xoro':
             block = build_xoro(w)
-            sched, ready_at, gen = xoro_schedule(w, c['reqs'])
+            sched, ready_at, gen, numbers = xoro_schedule(w, c['reqs'], c.get('variant'))
         else:
             block = build_trivium(w, c['bpc'])
             sched, init_ready, gen_ready, gen = trivium_schedule(w, c['bpc'])
             ready_at = [init_ready, gen_ready]
         regs = {block.wirevector_by_name[n]: x for n, x in mv.get('regs', {}).items() if n in block.wirevector_by_name}
         sim = pyrtl.Simulation(block=block, register_value_map=regs)
-        seed = inp('seed')
+        seedmap = mv.get('inputs', {}).get('seed', {})
+        loads = [t for t, (ld, rq) in enumerate(sched) if ld]
+        seed_at = {t: int(seedmap.get(str(t), seedmap.get(t, 0))) for t in loads}
+        seed = seed_at[0]
         bad = []
-        s0, s1 = seed & refs.M64, seed >> 64
         for t, (ld, rq) in enumerate(sched):
-            sim.step({'load': ld, 'req': rq, 'seed': seed if t == 0 else 0})
+            sim.step({'load': ld, 'req': rq, 'seed': seed_at.get(t, 0)})
             rdy = sim.inspect('ready')
             if t >= 1 and rdy != (1 if t in ready_at else 0):
                 bad.append('ready=%d at cycle %d' % (rdy, t))
-            if k == 'xoro' and t in ready_at:
-                val = 0
-                for _ in range(gen):
-                    wd, s0, s1 = refs.xoroshiro_next(s0, s1)
-                    val = (val << 64) | wd
-                exp = val >> (64 * gen - w)
-                if sim.inspect('rand') != exp:
-                    bad.append('rand=%x at cycle %d, xoroshiro128+ gives %x' % (sim.inspect('rand'), t, exp))
+            for (tn, si, skip) in numbers:
+                if k == 'xoro' and tn == t:
+                    sd = seed_at[loads[si]]
+                    s0, s1 = sd & refs.M64, sd >> 64
+                    for _ in range(skip * gen):
+                        _wd, s0, s1 = refs.xoroshiro_next(s0, s1)
+                    val = 0
+                    for _ in range(gen):
+                        wd, s0, s1 = refs.xoroshiro_next(s0, s1)
+                        val = (val << 64) | wd
+                    exp = val >> (64 * gen - w)
+                    if sim.inspect('rand') != exp:
+                        bad.append('rand=%x at cycle %d, xoroshiro128+ from the seed loaded at cycle %d gives %x' % (sim.inspect('rand'), t, loads[si], exp))
             if k == 'trivium' and t == ready_at[-1]:
                 key, iv = seed >> 80, seed & ((1 << 80) - 1)
                 ks = refs.trivium_keystream([(key >> i) & 1 for i in range(80)], [(iv >> i) & 1 for i in range(80)], gen * c['bpc'])
